@@ -26,7 +26,8 @@ class _Suspend:
         yield self
 
 
-def replay(ccfg: dict, events: list[dict], n_calls: int, entry: str = "AsyncPolicy") -> list[dict]:
+def replay(ccfg: dict, events: list[dict], n_calls: int, entry: str = "AsyncPolicy",
+           probe_after: bool = False) -> list[dict]:
     import_redress()
     import redress.policy as rp
     from redress.circuit import CircuitBreaker
@@ -142,6 +143,13 @@ def replay(ccfg: dict, events: list[dict], n_calls: int, entry: str = "AsyncPoli
                 finish(e["i"], {"out": e["out"], "k": e["k"]})
         for c in coros.values():
             c.close()
+        if not coros and probe_after:
+            # C08's oracle: with no call outstanding, once recovery_timeout_s has elapsed the next
+            # call must be admitted (asked with the original class, past the spy)
+            clock.advance(bc["R"])
+            from redress.circuit import CircuitBreaker as _CB
+            d = _CB.allow(breaker)
+            trace.append({"e": "cprobe", "allowed": bool(d.allowed)})
     return trace
 
 
@@ -171,8 +179,8 @@ def check_into(rep: Report, tier: str, prop: str = "C07") -> None:
     mism = 0
     for b in chosen:
         ccfg = configs[b["c"] - 1]
-        obs = replay(ccfg, b["h"], n_calls)
-        if obs != b["h"]:
+        obs = replay(ccfg, b["h"], n_calls, probe_after=(prop == "C08"))
+        if [e for e in obs if e["e"] != "cprobe"] != b["h"]:
             mism += 1
         traces.append({"cfg": full(ccfg), "n": n_calls, "ev": obs, "predicted": b["h"]})
     verdicts = tlc_validate("ConcTrace", traces, "conc", keys=("cfg", "n", "ev"))
@@ -185,7 +193,7 @@ def check_into(rep: Report, tier: str, prop: str = "C07") -> None:
                 "predicted_by_M": t["predicted"],
                 "how": "harness.conccheck.replay(cfg, events, n): calls are started / finished in the "
                        "order of the callow/crec/cinvoke events"})
-        elif v["conf"]:
+        elif v["conf"] and t["ev"][v["conf"] - 1]["e"] != "cprobe":      # (the oracle's question is not M's)
             rep.drift.append(f"concurrent trace differs from M but no {prop} clause is violated")
     # canary: double admission during a probe without any disturbance must be flagged as new
     b0 = next(b for b in behs if any(e["e"] == "callow" and e["state"] == "half" for e in b["h"]))
